@@ -12,7 +12,7 @@ if ! git -C "$WT" apply --3way "$PWD/$D/patch.diff" 2>/dev/null && ! git -C "$WT
   echo "== $D patch does not apply to /repo HEAD"; git -C /repo worktree remove --force "$WT"; exit 3
 fi
 for P in $PROPS; do
-  VERIF_EVIDENCE_DIR=/tmp/seeded_evidence_$$ VERIF_REPO="$WT" ./check "$P" --tier quick > "/tmp/seeded_$$.log" 2>&1; rc=$?
+  VERIF_EVIDENCE_DIR=/tmp/seeded_evidence_$$ VERIF_REPO="$WT" ./check "$P" --tier ${SEED_TIER:-quick} > "/tmp/seeded_$$.log" 2>&1; rc=$?
   echo "== $D $P rc=$rc"; grep -E "VIOLATION|^\[$P\]|INFRA" "/tmp/seeded_$$.log" | cut -c1-300
 done
 rm -rf "/tmp/seeded_$$.log" /tmp/seeded_evidence_$$
